@@ -34,6 +34,8 @@ type c14Cycle struct {
 	// SlowHoldMs > 0: one more request is in flight at the stop whose body is only half uploaded; the client
 	// sends the rest this many milliseconds AFTER the stop was requested (a request at "early progress").
 	SlowHoldMs int `json:"slowHoldMs,omitempty"`
+	// ScrapeAcrossStop: a client keeps scraping /metrics (keep-alive connection) while the stop is requested and awaited.
+	ScrapeAcrossStop bool `json:"scrapeAcrossStop,omitempty"`
 }
 
 type c14Case struct {
@@ -67,6 +69,7 @@ func genC14(t *rapid.T) c14Case {
 			}
 			cy.SlowHoldMs = pick(t, "hold", holds...)
 		}
+		cy.ScrapeAcrossStop = rapid.IntRange(0, 3).Draw(t, "scrape_across") == 0
 		c.Cycles = append(c.Cycles, cy)
 	}
 	return c
@@ -217,6 +220,28 @@ func c14RunCycle(ps *prover.ProvingSystem, mode string, a *c14Addrs, cy c14Cycle
 	case "after-completion":
 		wg.Wait()
 	}
+	stopScrape := make(chan struct{})
+	scrapeDone := make(chan struct{})
+	if cy.ScrapeAcrossStop {
+		if err := ts.waitReady(20 * time.Second); err != nil {
+			return "harness:not-ready", err.Error()
+		}
+		go func() {
+			defer close(scrapeDone)
+			for {
+				select {
+				case <-stopScrape:
+					return
+				default:
+				}
+				ts.scrape(2 * time.Second) // errors after the stop are expected; it must just never wedge the shutdown
+			}
+		}()
+		time.Sleep(2 * time.Millisecond)
+	} else {
+		close(scrapeDone)
+	}
+	defer func() { close(stopScrape); <-scrapeDone }()
 	histLog(map[string]any{"step": "request-stop"})
 	stopped := make(chan struct{})
 	stopAt := time.Now()
